@@ -69,8 +69,14 @@ func (ft *FT) havocAll(st *State) {
 	ft.ctr++
 	keep := map[string]Term{}
 	for k, v := range st.m {
-		if strings.HasPrefix(k, "L!") || strings.HasPrefix(k, "D!") || strings.HasPrefix(k, "VIS!") || k == "HELD" {
+		if strings.HasPrefix(k, "L!") || strings.HasPrefix(k, "D!") || strings.HasPrefix(k, "VIS!") || k == "HELD" || k == "$panicking" {
 			keep[k] = v
+		}
+	}
+	// keys that survive a havoc must be materialised first (an absent key would read as the new epoch's base version)
+	for _, k := range []string{"HELD", "$panicking"} {
+		if _, ok := keep[k]; !ok && ft.heaps[k] != nil {
+			keep[k] = ft.get(st, k)
 		}
 	}
 	nextOld := ft.get(st, "$next")
